@@ -328,6 +328,51 @@ def check_scope_tables(ctx):
     ctx.rule("enum.scope-table", n, floor=301, note="(scope, wowm enum) -> exported Rust enum: variant list = enumerators of the definition valid in that scope")
 
 
+
+def check_error_carrier(ctx):
+    """err.carrier (C11, C04): the error that reports an undeclared value must be able to hold it - EnumError keeps its `value` in a field wide
+    enough for every source integer type (u64 / i64, i.e. i128) and `EnumError::new` stores its argument unchanged (interpreted on values at and
+    beyond the 64-bit limits); the opcode errors carry the opcode in at least the width of the widest opcode (u32)"""
+    from ..facts import facts
+    from ..minieval import Mini, Unsupported, Panic
+    from ..intconv import INT_TYPES
+    n = 0
+    for crate in ("wow_world_base", "wow_login_messages"):
+        F = facts(crate)
+        adt = F.adt("crate::errors::EnumError")
+        new = F.fn("crate::errors::EnumError::new")
+        if adt is None or new is None:
+            ctx.violate("err.carrier", f"anchor|{crate}", f"{crate}::errors::EnumError / EnumError::new not found (anchor disappeared)")
+            continue
+        n += 1
+        fty = next((f[1] for f in adt["variants"][0][2] if f[0] == "value"), None)
+        if fty != "i128":
+            ctx.violate("err.carrier", f"{crate}|EnumError|field", f"{crate}::errors::EnumError.value is {fty}: it cannot hold every value of the source integer types (u64 up to 2^64-1 and i64 down to -2^63 need i128), "
+                        "so an undeclared value is reported as another number", new["file"], new["line"])
+        for v in ((1 << 64) - 1, 1 << 63, (1 << 63) + 0xFF, -(1 << 63), -1, 0, 255):
+            try:
+                r = Mini({crate: F}, crate).call_fn(new["path"], ["Name", v])
+            except (Unsupported, Panic) as e:
+                ctx.violate("err.carrier", f"{crate}|EnumError|shape", f"{crate}::errors::EnumError::new: not interpretable - review ({e})", new["file"], new["line"])
+                break
+            got = r[2].get("value") if isinstance(r, tuple) and r and r[0] == "struct" else None
+            if got != v or r[2].get("name") != "Name":
+                ctx.violate("err.carrier", f"{crate}|EnumError|new", f"{crate}::errors::EnumError::new(name, {v}) stores value {got}: the error for an undeclared value reports another number", new["file"], new["line"])
+                break
+    for crate, field in (("wow_world_messages", "opcode"), ("wow_login_messages", "0")):
+        adt = facts(crate).adt("crate::errors::ExpectedOpcodeError")
+        var = next((v for v in (adt["variants"] if adt else []) if v[0] == "Opcode"), None)
+        if var is None:
+            ctx.violate("err.carrier", f"anchor|{crate}|opcode", f"{crate}::errors::ExpectedOpcodeError::Opcode not found (anchor disappeared)")
+            continue
+        n += 1
+        fty = next((f[1] for f in var[2] if f[0] == field), None)
+        need = 32 if crate == "wow_world_messages" else 8
+        if fty not in INT_TYPES or INT_TYPES[fty][0] < need or INT_TYPES[fty][1]:
+            ctx.violate("err.carrier", f"{crate}|Opcode|field", f"{crate}::errors::ExpectedOpcodeError::Opcode carries the opcode as {fty}, the widest opcode on the wire has {need} bits")
+    ctx.rule("err.carrier", n, floor=4, note="EnumError.value is i128 and EnumError::new stores its argument unchanged (values at the 64-bit limits); the opcode errors carry at least the widest wire opcode")
+
+
 def run(ctx):
     g = G()
     P = Pairing(g)
@@ -358,4 +403,5 @@ def run(ctx):
     ctx.analysed.update({"enum_pairs": n_enums, "wowm_files": P.model.counts["files"], "unpaired_rust_enums": len(unpaired)})
     ctx.assume("rustc's type resolution (From/Into only exist for lossless integer pairs; TryInto fails exactly when the value is not representable)")
     ctx.assume("the wowm text is the specification; it is read by an independent parser (vlib/wowm.py), not by the generator")
+    check_error_carrier(ctx)
     return "other", EXPLANATION, {}
